@@ -95,12 +95,27 @@ func genC17(r *Rand, tier string, i int) *h.Scenario {
 		succs = append(succs, s)
 		return s
 	}
+	// the predecessor (or a bystander) may move after the successor has been queued: the successor
+	// takes the place the predecessor has when it leaves
+	move := func() {
+		if r.Bool(0.5) {
+			who := pred
+			if len(by) > 0 && r.Bool(0.3) {
+				who = by[r.Intn(len(by))]
+			}
+			ops = append(ops, h.Op{K: []int{h.OpSetPriority, h.OpUpdatePriority}[r.Intn(2)], Bar: who, N: int64(r.Range(0, 9)), Flag: r.Bool(0.3)})
+			if r.Bool(0.6) {
+				ops = append(ops, h.Op{K: h.OpSleep, D: 3 * period})
+			}
+		}
+	}
 	switch mode {
 	case 0:
 		if r.Bool(0.5) {
 			ops = append(ops, h.Op{K: h.OpIncrement, Bar: pred})
 		}
 		addNow(pred)
+		move()
 		if r.Bool(0.5) {
 			ops = append(ops, sleep())
 		}
@@ -255,6 +270,33 @@ func judgeC17(hi *Hist) []*Violation {
 				sib[s] = true
 			}
 			prio := effectivePriorities(hi, facts)
+			// priority updates: the latest one that returned before the hand-over counts; one that is
+			// in flight around the two frames makes their relative order unspecified
+			busy := false
+			from, to := cycleFirstEvent(hi, frames, lastPred), frames[first].W.At
+			if lastPred > 0 {
+				from = frames[lastPred-1].W.At // a lazy change shows one frame late
+			}
+			for _, op := range hi.Ops {
+				if op.Op.K != h.OpSetPriority && op.Op.K != h.OpUpdatePriority {
+					continue
+				}
+				if op.Ret < 0 || (op.Inv < to && op.Ret > from) {
+					busy = true
+				} else if op.Ret <= from {
+					prio[op.Op.Bar] = int(op.Op.N)
+				}
+			}
+			for range facts {
+				for _, q := range facts {
+					if q.Queued && frames[first].Has(q.Idx) && !frames[lastPred].Has(q.Idx) {
+						prio[q.Idx] = prio[q.Pred]
+					}
+				}
+			}
+			if busy {
+				continue
+			}
 			for x := range a {
 				if prio[x] == prio[pred.Idx] {
 					continue // ties are laid out in unspecified order
